@@ -106,6 +106,7 @@ def to_request(project, root, build_dir="build"):
             "files": [[p, [ir_doc(d) for d in docs]] for p, docs in project["files"].items()],
             "project_file": "laze-project.yml", "build_dir": build_dir,
             "project_root": root, "laze_bin": os.path.realpath(common.LAZE),
+            "want_insights": bool(project.get("args", {}).get("info_export")),
             "args": project.get("args", {})}
 
 
@@ -168,6 +169,31 @@ def read_dump(d):
     return out
 
 
+def read_insights(path):
+    """the info-export file as nested lists of pairs (key order is part of what is compared); None when absent/unreadable"""
+    if not os.path.exists(path):
+        return None
+    try:
+        j = json.load(open(path), object_pairs_hook=lambda kv: ("obj", kv))
+    except Exception as e:
+        return ["unreadable", repr(e)[:200]]
+
+    def obj(x):
+        return x[1] if isinstance(x, tuple) and x[0] == "obj" else None
+    top = obj(j)
+    if top is None or len(top) != 1 or top[0][0] != "builds":
+        return ["unexpected-shape", json.dumps(j)[:200]]
+    out = []
+    for b, apps in obj(top[0][1]) or []:
+        al = []
+        for a, info in obj(apps) or []:
+            d = dict(obj(info) or [])
+            al.append([a, {"outfile": d.get("outfile"),
+                           "modules": [[n, dict(obj(mi) or []).get("deps", [])] for n, mi in (obj(d.get("modules")) or [])]}])
+        out.append([b, al])
+    return out
+
+
 def run_impl(project, keep=False, extra_env=None):
     os.makedirs(SCRATCH, exist_ok=True)
     d = tempfile.mkdtemp(prefix="p", dir=SCRATCH)
@@ -176,11 +202,15 @@ def run_impl(project, keep=False, extra_env=None):
         write_project(d, project["files"])
         args = project.get("args", {})
         local = args.get("local")
+        info = os.path.join(root, ".info-export.json")
+        more = ("--info-export", info) if args.get("info_export") else ()
         if local is not None:
-            r = run_laze(d, args, extra_env=extra_env, global_mode=False, cwd=os.path.join(d, local))
+            r = run_laze(d, args, extra_env=extra_env, global_mode=False, cwd=os.path.join(d, local), more=more)
         else:
-            r = run_laze(d, args, extra_env=extra_env)
+            r = run_laze(d, args, extra_env=extra_env, more=more)
         r["dump"] = read_dump(d)
+        if more:
+            r["insights"] = read_insights(info)
         nf = os.path.join(d, "build", "build-local.ninja" if local is not None else "build-global.ninja")
         r["ninja"] = open(nf).read() if os.path.exists(nf) else None
         r["root"] = root
@@ -413,6 +443,17 @@ def compare(r, m, observables=("status", "decision", "modules", "loaded", "globa
             tb = sorted((model_task_view(t) for t in b["tasks"]), key=lambda t: t[0])
             if ta != tb:
                 diffs.append(("tasks", f"{k}: impl {ta} model {tb}"))
+    if "insights" in r and (m["ok"].get("insights") is not None or r["insights"] is not None):
+        # the info-export file: builder -> app -> (outfile, module -> deps), key order included
+        if r["insights"] != m["ok"].get("insights"):
+            ia, im = r["insights"], m["ok"].get("insights")
+            where = f"impl {json.dumps(ia)[:300]} model {json.dumps(im)[:300]}"
+            if isinstance(ia, list) and isinstance(im, list):
+                for x, y in zip(ia, im):
+                    if x != y:
+                        where = f"impl {json.dumps(x)[:400]} model {json.dumps(y)[:400]}"
+                        break
+            diffs.append(("insights", where))
     if "ninja" in observables:
         ca = sort_order_only(canon_impl_ninja(r["ninja"] or ""))
         cb = sort_order_only(canon_model_ninja(m["ok"]["ninja"]))
